@@ -15,6 +15,6 @@ const Config cfgs[] = {
   {"nik/e1r2/debra0", make_int<NQ<rc::DEBRA<0>, 1, 2>>},
 };
 QueueHarness h("queues_nik", cfgs, sizeof(cfgs) / sizeof(cfgs[0]));
-struct Reg { Reg() { xsim::register_harness(&h); } } reg;
+struct Reg { Reg() { xsim::register_harness(&h); hx::register_reclaimer_probes(); xsim::fn_probe("nikolaev_queue: a pusher lost the race to append its node (steal_init_value)", "16steal_init_value"); xsim::fn_probe("nikolaev_scq: catchup executed", "7catchup"); xsim::fn_pair_probe("nikolaev_queue: push overlaps pop", "nikolaev_queue&4pushE", "nikolaev_queue&3popE"); } } reg;
 } // namespace
 XSIM_MAIN()
